@@ -29,7 +29,7 @@ Id(x) == CallE("id", <<x>>)
 (* other depth-1 forms over a leaf a (and b) *)
 Misc(a, b) == <<
   Un("-", a), Un("+", a), Un("not", a),
-  Tern(a, b, IntE(9)), Tern(Id(a), Id(b), Id(IntE(9))),
+  Tern(a, b, IntE(9)), Tern(Id(a), Id(b), Id(IntE(9))), Tern(a, IntE(8), Tern(b, Id(IntE(7)), IntE(9))), Tern(Id(a), Tern(b, a, IntE(7)), IntE(9)),
   TestE(a, FALSE, "odd", <<>>), TestE(a, TRUE, "even", <<>>), TestE(a, FALSE, "divisible by", <<b>>),
   TestE(Id(a), TRUE, "divisible by", <<Id(b)>>), TestE(a, FALSE, "yes", <<b, a>>),
   AttrBr(NameE("arr"), a), AttrBr(NameE("h"), a), AttrDot(NameE("h"), "k"), AttrDot(NameE("arr"), "1"),
